@@ -40,6 +40,8 @@ def families(tier):
     add("a_p_b_rev", D["a_p_b_rev"], 0, 6)
     add("a_p_q_b", D["a_p_q_b"], 0, 6)
     add("a_p_dfix_b", D["a_p_dfix_b"], 3, 5)
+    add("a_p_bc", D["a_p_bc"], 0, 4)
+    add("ab_p_c", D["ab_p_c"], 0, 4)
     add("abc", D["abc"], 0, 5)
     add("cba_listed", D["cba_listed"], 0, 5)
     add("fan_in", D["fan_in"], 0, 5)
